@@ -35,8 +35,34 @@ def canon(t, memo=None):
         r = ("single", new[1][1], new[1][2], new[3])
     elif new[0] == "item" and isinstance(new[1], tuple) and new[1][0] == "items" and is_const(new[2], 0):
         r = ("first", new[1][1], new[1][2])
+    elif new[0] == "cmp" and new[1] == "Is" and new[3] == NONE and isinstance(new[2], tuple) and _never_falsy_kind(new[2][2] if len(new[2]) > 2 else None) \
+            and (new[2][0] == "first" or (new[2][0] == "single" and new[2][3] == NONE)):
+        # ``child is None`` for a child that is a node or a token (objects that are never false): the child is absent
+        r = ("not", ("first", new[2][1], new[2][2]))
+    elif new[0] == "cond" and isinstance(new[1], tuple) and new[1][0] == "items" and new[3] == const(True) \
+            and new[2] == ("not", ("first", new[1][1], new[1][2])):
+        # absent when there are no such children, else when the first one is false
+        r = new[2]
     memo[t] = r
     return r
+
+
+_NF_KINDS: dict = {}
+
+
+def _never_falsy_kind(k) -> bool:
+    """Children filed under kind k are AstNode objects (rules the builder passes through) or Token objects, and neither class
+    defines __bool__ or __len__: such a child is never false, so 'is None' and 'not' test the same thing (absence)."""
+    if not isinstance(k, str):
+        return False
+    if k not in _NF_KINDS:
+        g = grammar()
+        f = facts()
+        plain = all(c.find_method(m) is None for c in (f.cls("gherkin.ast_node.AstNode"), f.cls("gherkin.token.Token")) for m in ("__bool__", "__len__"))
+        b = bnf()
+        passed_through = k in g.rules and g.rules[k].ast and k not in b.branches and b.default_returns_node
+        _NF_KINDS[k] = plain and (passed_through or k not in g.rules)
+    return _NF_KINDS[k]
 
 
 def single(n, k, d=NONE):
@@ -78,7 +104,7 @@ class BuilderNF:
 
     def __init__(self) -> None:
         self.I = I = new_interp()
-        self.fi = I.facts.func(f"{BQ}.transform_node")
+        self.fi = I.facts.func(f"{BQ}.{N.TRANSFORM}")
         p = self.fi.params()
         self.selft = ("param", p[0])
         self.node = ("param", p[1])
@@ -89,11 +115,11 @@ class BuilderNF:
         g = grammar()
         rt = (self.node, "rule_type")
         # the default: an unknown rule type is passed through
-        t0, rv0, _ = I.run(f"{BQ}.transform_node", ext={rt: const("<any other rule>")})
+        t0, rv0, _ = I.run(f"{BQ}.{N.TRANSFORM}", ext={rt: const("<any other rule>")})
         self.default_returns_node = rv0 == self.node
         self.rv = rv0
         for r in [x for x in g.order if g.rules[x].ast]:
-            tree, rv, _ = I.run(f"{BQ}.transform_node", ext={rt: const(r)})
+            tree, rv, _ = I.run(f"{BQ}.{N.TRANSFORM}", ext={rt: const(r)})
             if rv == self.node and not [n for n in tree if n[0] not in ("alloc", "return", "if")]:
                 continue            # passed through: no transformation for this rule
             line = None
@@ -332,6 +358,7 @@ def rule_rw(rep: Report, rid="C03.rw", rid_flow="C03.flow") -> None:
             return cc[0] in ("single", "first", "items") and _owner_rule(b, cc[1], p) is not None
         for v, line, gs in br.returns:
             atoms = []
+            gs = [(b.c(c), pol) for c, pol in gs]        # conditions in terms of the node's children
             for c, _pol in gs:
                 nf._test_atoms(c, atoms)
             shown = [(fmt(b.c(c), b.I)[:120], pol) for c, pol in gs]
@@ -474,7 +501,7 @@ def rule_fields(rep: Report, rid="C03.fields") -> None:
     found_add = False
     for n, ctx in nf.iter_nodes(tree):
         gs = nf.guards_in_ctx(ctx)
-        if n[0] == "mutate" and n[1] == ("attr", selft, "comments") and n[2] == "append":
+        if n[0] == "mutate" and n[1] == ("attr", selft, N.COMMENTS) and n[2] == "append":
             d = nf.resolve_ref_dict(I2, n[3][0], tree)
             ok = gs == [(is_comment, True)] and d is not None and set(d) == {"location", "text"} \
                 and d["text"][0] == ("attr", tok, "matched_text") and d["location"][0] == ("attr", tok, "location")
@@ -482,11 +509,11 @@ def rule_fields(rep: Report, rid="C03.fields") -> None:
             rep.ob(rid, "a Comment token becomes one comment {location: token location, text: token text}, whatever the position", ok,
                    file=BFILE, line=n[4], function=fi.qualname, expected="if token.matched_type == 'Comment': comments.append({location, text})",
                    found=fmt(n[3][0], I2) + f" under {[(fmt(a, I2), p) for a, p in gs]}")
-        if n[0] == "mutate" and n[2] == "append" and n[1] != ("attr", selft, "comments"):
+        if n[0] == "mutate" and n[2] == "append" and n[1] != ("attr", selft, N.COMMENTS):
             tgt = canon(n[1])
             found_add = True
             ok = gs == [(is_comment, False)] and n[3] == (tok,) and tgt[0] == "items" and tgt[2] == ("attr", tok, "matched_type") \
-                and tgt[1] == ("item", ("attr", selft, "stack"), const(-1))
+                and tgt[1] == ("item", ("attr", selft, N.STACK), const(-1))
             rep.ob(rid, "every other token is added to the open rule's node under its own token kind", ok,
                    file=BFILE, line=n[4], function=fi.qualname, expected="current_node.add(token.matched_type, token)",
                    found=f"{fmt(tgt, I2)}.append({fmt(n[3][0], I2)}) under {[(fmt(a, I2), p) for a, p in gs]}")
@@ -1002,7 +1029,7 @@ def rule_ids(rep: Report, rid_order="C11.order", rid_src="C11.src") -> None:
     f = facts()
     cls = f.cls(BQ)
     # functions reached from transform_node (resolved calls of the normal-form runs, including dispatch tables and helpers)
-    reach = {f"{BQ}.transform_node"} | {callee for caller, callee, line in b.I.call_log}
+    reach = {f"{BQ}.{N.TRANSFORM}"} | {callee for caller, callee, line in b.I.call_log}
     import ast as _ast
     for m in f.modules.values():
         if m.name == "gherkin.inout":
@@ -1023,11 +1050,11 @@ def rule_ids(rep: Report, rid_order="C11.order", rid_src="C11.src") -> None:
     def tn(I_, st_, fi_, args, kwargs, n, tree_):
         tree_.append(("transform", tuple(args), getattr(n, "lineno", None)))
         return ("transformed", args[1] if len(args) > 1 else None)
-    I2.intrinsics[f"{BQ}.transform_node"] = tn
+    I2.intrinsics[f"{BQ}.{N.TRANSFORM}"] = tn
     tree, rv, st = I2.run(q)
     rep.used_function(q)
     selft = ("param", fi.params()[0])
-    stack = ("attr", selft, "stack")
+    stack = ("attr", selft, N.STACK)
     ev = [n for n, _ in nf.iter_nodes(tree) if n[0] in ("mutate", "transform")]
     popped = ("call", ".pop", (stack,), ())
     ok = len(ev) == 3 and ev[0][0] == "mutate" and ev[0][1] == stack and ev[0][2] == "pop" and ev[1][0] == "transform" and ev[1][1][1] == popped \
